@@ -308,6 +308,16 @@ def private_build(d):
         "From HV Require Import Base.Prelude C17.Model C17.VModel Gen.Effects.",
         "From HV Require Import Base.Prelude C17.Model C17.VModel.\nFrom HVP Require Import Effects.")
     open(os.path.join(pdir, "Variants.v"), "w").write(vv)
+    # a kernel-checked statement about the PRIVATE tables: the general theorem instantiated with them
+    open(os.path.join(pdir, "Props.v"), "w").write(
+        "From HV Require Import Base.Prelude C17.Model C17.Proofs C17.VModel C17.VProofs Properties.C17.\n"
+        "From HVP Require Import Effects EffectsOk Variants.\n"
+        "Definition private_tables_meet_C17 :=\n"
+        "  C17_for_every_table HVP.Effects.generated_table HVP.Variants.generated_variants\n"
+        "    HVP.EffectsOk.effects_read_only HVP.Variants.variants_ok.\n"
+        "Definition private_tables_locality :=\n"
+        "  C17_locality_from_variant_table HVP.Effects.generated_table HVP.Variants.generated_variants HVP.Variants.variants_ok.\n"
+        "Check private_tables_meet_C17.\nPrint Assumptions private_tables_meet_C17.\n")
     okm, o = vf.coq_make(["C17/Model.vo", "C17/VModel.vo"])
     log = "" if okm else o[-1500:]
     res = {}
@@ -318,7 +328,15 @@ def private_build(d):
             log += "\n%s.v: %s" % (n, o[-1200:])
     os.environ["COQPATH"] = root + (":" + os.environ["COQPATH"] if os.environ.get("COQPATH") else "")
     _state["private_examples"] = {"effects_read_only": res["Effects"] and res["EffectsOk"], "variants_ok": res["Effects"] and res["Variants"]}
-    return res["Effects"] and res["EffectsOk"] and res["Variants"], res["Effects"] and res["Eval"], log
+    okp = True
+    if res["Effects"] and res["EffectsOk"] and res["Variants"]:
+        # (needs the shared Properties/C17.vo; only attempted when the private Examples hold)
+        okq, o = vf.coq_make(["Properties/C17.vo"])
+        rc, o2 = vf.sh(["coqc", "-Q", vf.COQ, "HV", "-Q", pdir, "HVP", "-w", "-notation-overridden", "Props.v"], cwd=pdir, timeout=900)
+        okp = okq and rc == 0 and "Closed under the global context" in o2
+        if not okp:
+            log += "\nProps.v: %s" % ((o if not okq else o2)[-1200:])
+    return res["Effects"] and res["EffectsOk"] and res["Variants"] and okp, res["Effects"] and res["Eval"], log
 
 
 def spec_types():
@@ -405,8 +423,8 @@ def custom(P, tier, seed, replay):
             return rep.finish({"evaluations": 0, "distinct_nontrivial": 0, "rule": P["rule"], "exhaustive": False},
                               vf.TRUSTED_COMMON + P["trusted"], "coqc (private) HVP.Effects HVP.EffectsOk HVP.Variants HVP.Eval", P["assumptions"])
         priv_note = "private tables: HVP.EffectsOk.effects_read_only, table_covers_mechanisms, HVP.Variants.variants_ok / variants_aligned / variants_cover " \
-                    "compiled; streams evaluated with HVP.Eval; the property theorems are the shared ones, which hold for every pair of tables passing " \
-                    "forallb row_ok / forallb variant_row_ok (C17_for_every_table, C17_locality_from_variant_table)"
+                    "compiled; HVP.Props.private_tables_meet_C17 (= C17_for_every_table instantiated with the private tables and their Examples) " \
+                    "kernel-checked, closed; streams evaluated with HVP.Eval; the other theorem obligations are the shared ones"
     if ok and not bad and not vbad:
         orig = runner.run_stream
         orig_eval = runner.evaluate
@@ -596,7 +614,8 @@ P = {
     "theorems": ["C17_store_unchanged", "C17_race_free", "C17_calls_read_only", "C17_overrides_local", "C17_order_independent",
                  "C17_for_every_table", "C17_locality_from_variant_table", "C17_writes_stay_local", "C17_variant_views_agree",
                  "C17_sequential_runs_meet_spec", "C17_F1_pinned_refuted", "C17_variant_check_refutes_M2",
-                 "C17_variant_check_refutes_seeded_9", "C17_nonvacuous", "C17_table_covers_mechanisms"],
+                 "C17_variant_check_refutes_seeded_9", "C17_nonvacuous", "C17_hypotheses_satisfiable_today",
+                 "C17_table_covers_mechanisms"],
     "generators": [gen_translator_selftest, gen_effects_table],
     "custom": custom,
     "extra_coverage": extra_coverage,
@@ -643,13 +662,17 @@ P = {
         "flattened), WithConfig shares, copies, overwrites or allocates whole cells as the variant table says, a call's accesses are atomic "
         "reads/writes of cells (Go memory model: race = two conflicting unsynchronised accesses); in the model the override of a field IS "
         "the value the code builds for it — that the built value is the right one is checked by the variants stream, not proved",
-        "reflection deep-hash: variables captured by closures and memory behind unsafe.Pointer are not visible; sync/atomic state, "
+        "reflection deep-hash: variables captured by closures, memory behind unsafe.Pointer and spare slice capacity are not visible; sync/atomic state, "
         "protobuf descriptors, cel-go environments and text/template function tables are hashed as opaque",
-        "third-party libraries used read-only by Execute (text/template, cel-go, regexp, go-jose, x509) are safe for concurrent use as documented",
+        "libraries used read-only by Execute (text/template, cel-go, regexp, go-jose, x509, strings.Replacer) are safe for concurrent use as documented",
     ],
     "assumptions": [
         "mechanism methods are entered only through Execute / WithConfig / the accessors of the method set (what the rule factory and the pipeline call)",
         "the driver is in package mechanisms and reaches NewMechanismFactory, mechanismsFactory and the config structs; a rename there breaks the driver, not the property",
+        "`vcatalogue_ok` (all main theorems): the loaded catalogue has one existing cell per field of its type's row; `cat_separate` (the two "
+        "locality theorems only): no prototype shares the memory of a field some method writes with a field nobody writes, of any prototype.  "
+        "Both are hypotheses about the CONSTRUCTORS, which neither table analyses (only the streams' deep-hash would notice); `cat_separate` is "
+        "vacuously true today (the variant table has 0 fields with writers)",
     ],
     "level_text": "Proof (kernel-checked, no axioms) over a store-of-cells model in which NOTHING about WithConfig is assumed: a variant is "
                   "built from the row of a VARIANT TABLE (per field: the receiver's field shared / copied, fresh, fresh but computed from a "
@@ -657,12 +680,17 @@ P = {
                   "field).  For EVERY effect table passing `forallb row_ok` and EVERY variant table passing `forallb variant_row_ok`, and every "
                   "interleaving of executions, accessor calls and WithConfig calls: no cell that existed is written, no two accesses conflict, "
                   "every instance shows its prototype's catalogue configuration overlaid with its own overrides, independent of history "
-                  "(C17_for_every_table); and from the variant table ALONE, whatever methods write: every field nobody writes keeps exactly that "
-                  "value in every instance and no write ever hits such a field (C17_locality_from_variant_table, C17_writes_stay_local).  This "
+                  "(C17_for_every_table); and from the variant table plus separation of the catalogue's cells (`cat_separate`: a hypothesis about "
+                  "the constructors, trivially true for today's table, which has no written field), for methods that write only the fields the "
+                  "table lists for them (`vf_writers`, trusted extraction; the semantics confines writes to them): every field nobody writes keeps "
+                  "exactly that value in every instance and no write ever hits such a field (C17_locality_from_variant_table, "
+                  "C17_writes_stay_local).  This "
                   "reduces the property to TWO facts about heimdall, both REGENERATED from the current source by harness/tools/effects and checked "
-                  "by vm_compute: `effects_read_only` (go/ssa taint analysis: no method writes receiver memory; self-tested on 47 seeded "
-                  "constructs) and `variants_ok` (go/ssa abstract interpretation of all 19 WithConfig and the constructors / Merge helpers / "
-                  "closures they call: 102 fields; self-tested on 13 fixture types: slices.Clip aliasing, shared-then-mutated and lazily filled maps, "
+                  "by vm_compute: `effects_read_only` (go/ssa taint analysis: no method writes receiver memory; self-tested on 47 fixture "
+                  "methods: 33 with a seeded write, 14 clean ones that must stay silent) and `variants_ok` (go/ssa abstract interpretation of the "
+                  "WithConfig of all 19 mechanism types of today's tree — 13 construct an instance, 6 only return the receiver or an error — and the "
+                  "constructors / Merge helpers / closures they call: 102 fields; the theorem C17_table_covers_mechanisms only demands >= 10 types / "
+                  ">= 10 constructing rows, and the generator gen_effects_table fails when the table's types differ from the driver's specs; self-tested on 13 fixture types: slices.Clip aliasing, shared-then-mutated and lazily filled maps, "
                   "struct copy with embedded pointer, copied memo, forgotten / swapped / never-set field, sub-slice, and every "
                   "spelling of the shallow element-wise copy — Clone, make + maps.Copy, copy(), append onto fresh, Insert, Concat, loop — "
                   "which must all give `fresh container, elements shared`).  That the VALUE built for an overridden "
@@ -674,16 +702,23 @@ P = {
                   "receiver-derived or package-level pointers count as writes unless whitelisted with a reason, whitelisted callees still count "
                   "for their destination arguments, and their results count as referring to their arguments; the variant extraction does not "
                   "follow channels / reflection / unsafe and treats the override map as fresh).  The theorems speak about cells = struct fields: "
-                  "that a field the table calls Fresh holds the value the override prescribes is established by the differential stream only; the "
-                  "evaluator still executes the simple make_variant model, proved to show the same views as the table-driven one "
-                  "(C17_variant_views_agree).  Not covered by tables or model: writers outside the method set (goroutines started by constructors, "
+                  "that a field the table calls Fresh holds the value the override prescribes is established by the differential stream only.  Under "
+                  "`forallb row_ok` the model has no write step at all (`writes_allowed` forces ws = []): C17_race_free, C17_calls_read_only, "
+                  "C17_store_unchanged state that a system without writes has no races and changes nothing; their whole content about heimdall is "
+                  "`effects_read_only` + `variants_ok`, i.e. the two trusted extractions.  The evaluator still executes the simple make_variant "
+                  "model and imports only Gen.Effects (generated_variants is never consulted by the streams); it is proved to show the same view as "
+                  "the table-driven build for each SINGLE WithConfig from the same store (C17_variant_views_agree); agreement over whole histories "
+                  "is not proved (it follows informally because neither model has a write step under the checks).  The two locality theorems are a "
+                  "robustness result for future tables with written fields; no passing run exercises them (today 0 fields have writers, and a tree "
+                  "with a writer fails effects_read_only first).  Not covered by tables or model: writers outside the method set (goroutines started by constructors, "
                   "OnChanged reload — the latter is exercised by the race stream only), the rule factory (the driver calls the mechanism factory "
                   "the rule factory calls).  A correctly synchronised memo (sync.Once / mutex / atomic in a mechanism) is reported as a write: the "
                   "check enforces 'immutable', not merely 'race free' (the locality theorem alone would tolerate a memo that WithConfig rebuilds). "
                   "Trusted further: Coq kernel/vm_compute; the cell abstraction of Go memory; the harness (reflection deep-hash with the stated "
                   "opaque types and without closure captures / spare slice capacity; in-memory endpoints; the merge rules of c17Merge as "
-                  "transcription of the documented override semantics); documented thread-safety of text/template, cel-go, go-jose, "
-                  "strings.Replacer.  Finding C17-F1 was repaired by fix: commit 13721c3 (C17_F1_pinned_refuted documents the pinned behaviour; "
-                  "C17_variant_check_refutes_M2 / _seeded_9 document what the variant check rejects; none says anything about today's tree).",
+                  "transcription of the documented override semantics); documented thread-safety of text/template, cel-go, regexp, go-jose, "
+                  "x509, strings.Replacer.  Finding C17-F1 was repaired by fix: commit 13721c3 (C17_F1_pinned_refuted documents the pinned behaviour; "
+                  "C17_variant_check_refutes_M2 / _seeded_9 document what the variant check rejects, on rows reduced by hand to two fields; none says "
+                  "anything about today's tree; C17_hypotheses_satisfiable_today gives the main theorems' hypotheses a witness on today's tables).",
     "technique": "generated effect summary and generated WithConfig variant table (go/ssa) + invariant proofs over interleavings + differential deep-hash/race correspondence",
 }
